@@ -161,7 +161,7 @@ pub fn scenario(idx: usize, seed: u64, reqs_per_task: usize) -> ScenarioResult {
     let block = (idx / 5) % 2 == 0;
     let mode = if block { WaitMode::Block } else { WaitMode::ReturnError };
     let npeers = rng.gen_range(1..=NPEERS);
-    let ntasks = rng.gen_range(4..=16usize);
+    let ntasks = if super::miri() { 3 } else { rng.gen_range(4..=16usize) };
     let sh = Arc::new(Shared {
         gauge: (0..GAUGES).map(|_| AtomicI64::new(0)).collect(),
         max_seen: (0..GAUGES).map(|_| AtomicI64::new(0)).collect(),
@@ -254,8 +254,8 @@ pub fn scenario(idx: usize, seed: u64, reqs_per_task: usize) -> ScenarioResult {
     });
     // ---- fresh-peer rounds: every round all tasks fire at one brand-new peer at the same moment
     // (the first requests of a peer are where its bookkeeping is created)
-    let fresh_rounds = if super::miri() { 3 } else { 400 };
-    let fresh_tasks = 8usize;
+    let fresh_rounds = if super::miri() { 2 } else { 400 };
+    let fresh_tasks = if super::miri() { 3usize } else { 8usize };
     let fresh_violation: Arc<Mutex<Option<String>>> = Default::default();
     rt.block_on(async {
         let barrier = Arc::new(tokio::sync::Barrier::new(fresh_tasks));
@@ -383,7 +383,7 @@ pub fn run(ctx: &Ctx) -> i32 {
         seed: ctx.seed,
         scenarios: if super::miri() { 2 } else { tier.pick(200, 3_000) },
         threads: 4,
-        watchdog: Duration::from_secs(300),
+        watchdog: Duration::from_secs(if super::miri() { 3_000 } else { 300 }),
         budget: Duration::from_secs(tier.pick(90, 900)),
         only: ctx.only,
     };
